@@ -15,7 +15,7 @@
 (*    form, operands untouched, unnamed registers untouched).              *)
 (* The trace is accepted iff TLC consumes every event and bad = {}.        *)
 (***************************************************************************)
-EXTENDS DecSqrt, Json, TLC, IOUtils
+EXTENDS DecConv, Json, TLC, IOUtils
 
 DW == 19                                  \* digits per word of the real library (64-bit build)
 DB == Pow10(DW)
@@ -144,6 +144,15 @@ Observe(ok, pid, tags) ==
   /\ regs' = Adopt
   /\ dgs' = Ev.dg
 
+ObserveDev(ok, pid, tags, dev) ==
+  /\ l' = l + 1
+  /\ vres' = vres
+  /\ bad' = bad \cup Tag(IF Ev.out # "ok" THEN {<<l, "C04", "panic">>} ELSE IF ok THEN {} ELSE {<<l, pid, "ret">>}, dev)
+                \cup Tag(Common({}), "")
+  /\ cov' = Bump({Ev.op} \cup tags)
+  /\ regs' = Adopt
+  /\ dgs' = Ev.dg
+
 RoundTags(w) == {Ev.op \o ":" \o w.why}
 FormTag2 == {Ev.op \o ":" \o Pre(Ev.x).form \o "," \o Pre(Ev.y).form}
 ModeTag == {"mode:" \o ToString(Pre(Ev.z).mode)}
@@ -252,6 +261,71 @@ TNewDecimal ==
   /\ IsEv("NewDecimal")
   /\ LET v == IFromStr(Ev.i) IN Step(OpNewDecimal(v.neg, v.mag, IFromStr(Ev.e)), {})
 
+TSetInt ==
+  /\ IsEv("SetInt")
+  /\ LET z == Pre(Ev.z)  v == IFromStr(Ev.i)  pobs == Ev.post[Ev.z].prec
+         w == OpSetInt(z, v.neg, v.mag, pobs)
+         g == Got(Ev.z)
+         extra == IF z.prec = 0 /\ v.mag # Zero /\ Ev.out = "ok"
+                  THEN (IF SetIntPrecOK(v.mag, pobs) THEN {} ELSE {<<l, "C09", "prec">>})
+                       \cup (IF g.acc = Exact THEN {} ELSE {<<l, "C14", "prec0-rounded">>})
+                  ELSE {}
+     IN StepX(w, ModeTag \cup RoundTags(w) \cup {"SetInt:prec" \o (IF z.prec = 0 THEN "0" ELSE "n")}, extra)
+TSetRat ==
+  /\ IsEv("SetRat")
+  /\ LET z == Pre(Ev.z)  n == IFromStr(Ev.num)  d == FromStr(Ev.den)  pobs == Ev.post[Ev.z].prec
+         qr == DivMod(n.mag, d)
+         isint == qr[2] = Zero
+         w == IF isint THEN OpSetInt(z, n.neg, qr[1], pobs) ELSE OpSetRat(z, n.neg, n.mag, d, pobs)
+         extra == IF z.prec = 0 /\ Ev.out = "ok" /\ n.mag # Zero /\ isint /\ ~SetIntPrecOK(qr[1], pobs) THEN {<<l, "C09", "prec">>}
+                  ELSE IF z.prec = 0 /\ Ev.out = "ok" /\ ~isint /\ pobs < DefaultPrec THEN {<<l, "C09", "prec">>} ELSE {}
+     IN StepX(w, ModeTag \cup RoundTags(w) \cup {"SetRat:" \o (IF isint THEN "integer" ELSE "fraction")}, extra)
+
+TInt64 == IsEv("Int64") /\ LET r == OpInt64(Pre(Ev.x), 64) IN Observe(IFromStr(Ev.ret.v) = r.v /\ Ev.ret.acc = r.acc, "C14", {"Int64:acc" \o ToString(r.acc)} \cup (IF r.v.mag = Sub(Pow2(63), One) \/ r.v.mag = Pow2(63) THEN {"Int64:limit"} ELSE {}))
+TUint64 == IsEv("Uint64") /\ LET r == OpUint64(Pre(Ev.x), 64) IN Observe(IFromStr(Ev.ret.v) = r.v /\ Ev.ret.acc = r.acc, "C14", {"Uint64:acc" \o ToString(r.acc)} \cup (IF r.v.mag = Sub(Pow2(64), One) THEN {"Uint64:limit"} ELSE {}))
+TInt == IsEv("Int") /\ LET r == OpInt(Pre(Ev.x)) IN Observe(Ev.ret.nil = r.nil /\ Ev.ret.acc = r.acc /\ (~r.nil => IFromStr(Ev.ret.v) = r.v), "C14", {"Int:acc" \o ToString(r.acc)})
+TRat ==
+  /\ IsEv("Rat")
+  /\ LET x == Pre(Ev.x)  n == IFromStr(Ev.ret.num)
+     IN Observe(IF x.form = "inf" THEN Ev.ret.nil /\ Ev.ret.acc = (IF x.neg THEN Above ELSE Below)
+                ELSE ~Ev.ret.nil /\ Ev.ret.acc = Exact /\ FromStr(Ev.ret.den) # Zero /\ RatDenotes(x, n.neg, n.mag, FromStr(Ev.ret.den)), "C14", {"Rat:" \o x.form})
+
+BinOfEv == [k |-> Ev.fk, neg |-> Ev.fneg, m |-> FromStr(Ev.fm), q |-> Ev.fe2]
+BinOfRet == [k |-> Ev.ret.k, neg |-> Ev.ret.neg, m |-> IF Ev.ret.k = "fin" THEN FromStr(Ev.ret.m) ELSE Zero, q |-> IF Ev.ret.k = "fin" THEN Ev.ret.e2 ELSE 0]
+
+(* binary -> decimal: exact when the precision can hold the expansion, else within n units (1 for SetFloat64, 64 for SetFloat) *)
+SetBinStep(b, pdef, n, tagp) ==
+  LET z == Pre(Ev.z)
+      w == OpSetBin(z, b, IF z.prec = 0 /\ pdef = 0 THEN Ev.post[Ev.z].prec ELSE pdef)
+      g == Got(Ev.z)
+      extra == IF b.k = "fin" /\ Ev.out = "ok" /\ Canonical(Ev.post[Ev.z]) /\ g.prec >= 1
+               THEN (IF g.form = "finite" /\ BinSetOK(z, b, g, n) THEN {} ELSE {<<l, "C15", "value">>})
+               ELSE {}
+      tags == {tagp \o ":" \o b.k} \cup
+              (IF b.k = "fin" /\ Ev.out = "ok" /\ g.form = "finite" /\ g.prec >= 1
+               THEN (IF RoundTo(b.neg, BinN(b), BinD(b), IZero, g.prec, g.mode).acc = Exact THEN {tagp \o ":exact"} ELSE {tagp \o ":rounded"}) ELSE {})
+  IN StepX(IF z.prec = 0 /\ pdef = 0 THEN [w EXCEPT !.free = w.free \cup {"prec"}] ELSE w, ModeTag \cup tags, extra)
+
+TSetFloat64 == IsEv("SetFloat64") /\ SetBinStep(DecodeF64(FromStr(Ev.bits)), 17, 1, "SetFloat64")
+TSetFloat == IsEv("SetFloat") /\ SetBinStep(BinOfEv, 0, 64, "SetFloat")
+
+ToBinStep(F, G, tagp) ==
+  LET x == Pre(Ev.x)  f == BinOfRet
+      vok == ToBinaryValueOK(x, F, f)
+      aok == ToBinaryAccOK(x, f, Ev.ret.acc)
+      dev == IF ~vok /\ aok /\ Ev.out = "ok" /\ DoubleRoundingClass(x, F, f, G) THEN "Dev_Float_DoubleRounding" ELSE ""
+  IN ObserveDev(vok /\ aok, "C15", {tagp \o ":" \o f.k} \cup (IF f.k = "fin" /\ f.q = F.qmin THEN {tagp \o ":subnormal"} ELSE {})
+                                      \cup (IF x.form = "finite" /\ Ev.ret.acc = 0 THEN {tagp \o ":exact"} ELSE {}), dev)
+TFloat64 == IsEv("Float64") /\ ToBinStep(F64, 11, "Float64")
+TFloat32 == IsEv("Float32") /\ ToBinStep(F32, 8, "Float32")
+(* Float: documented as naive: within 64 units in the last place of the big.Float's precision; zeros and infinities exactly *)
+TFloat ==
+  /\ IsEv("Float")
+  /\ LET x == Pre(Ev.x)  f == BinOfRet
+     IN Observe(CASE x.form = "zero" -> f.k = "zero" /\ f.neg = x.neg
+                  [] x.form = "inf" -> f.k = "inf" /\ f.neg = x.neg
+                  [] OTHER -> Ev.ret.prec >= 1 /\ BigFloatWithin(x, f, Ev.ret.prec, 64), "C15", {"Float:" \o x.form})
+
 TSetMantExp == IsEv("SetMantExp") /\ Step(OpSetMantExp(Pre(Ev.z), Pre(Ev.x), IFromStr(Ev.e)), {})
 TMantExp ==
   /\ IsEv("MantExp")
@@ -292,9 +366,12 @@ TPreds ==
      IN Observe(/\ r.sign = (IF x.form = "zero" THEN 0 ELSE IF x.neg THEN -1 ELSE 1)
                 /\ r.signbit = x.neg /\ r.isinf = (x.form = "inf") /\ r.iszero = (x.form = "zero")
                 /\ r.prec = x.prec /\ r.mode = x.mode /\ r.acc = x.acc, "C16", {})
+TPreds14 ==
+  /\ IsEv("IsInt")
+  /\ LET x == Pre(Ev.x) IN Observe(Ev.ret.isint = IsInteger(x) /\ Ev.ret.minprec = MinPrecOf(x), "C14", {"IsInt:" \o ToString(IsInteger(x))})
 
 CoreNext == TReset \/ TLoad \/ TAdd \/ TSub \/ TMul \/ TQuo \/ TFMA \/ TSqrt \/ TNeg \/ TAbs \/ TSet \/ TCopy \/ TSetPrec \/ TSetMode
-            \/ TSetInf \/ TNew \/ TSetInt64 \/ TSetUint64 \/ TNewDecimal \/ TSetMantExp \/ TMantExp \/ TSetBitsExp \/ TSetBitsExpSelf \/ TBitsExp \/ TCmp \/ TPreds
+            \/ TSetInf \/ TNew \/ TSetInt64 \/ TSetUint64 \/ TNewDecimal \/ TSetInt \/ TSetRat \/ TInt64 \/ TUint64 \/ TInt \/ TRat \/ TPreds14 \/ TSetFloat64 \/ TSetFloat \/ TFloat64 \/ TFloat32 \/ TFloat \/ TSetMantExp \/ TMantExp \/ TSetBitsExp \/ TSetBitsExpSelf \/ TBitsExp \/ TCmp \/ TPreds
 
 TraceInit == l = 1 /\ regs = <<>> /\ dgs = <<>> /\ bad = {} /\ cov = <<>> /\ vres = <<>>
 TraceNext == CoreNext
